@@ -529,3 +529,6 @@ func Count(prop, name, rule string, evals int, ntKeys []string, labels map[strin
 	}
 	flush()
 }
+
+// ReplayMode reports whether the process was started to re-execute saved cases.
+func ReplayMode() bool { return os.Getenv("VERIF_REPLAY") != "" }
